@@ -10,7 +10,7 @@ Timer variant, within a cap on the total number of yields (see inline_suites); e
 readiness instant per selecting task - all explored; the scheduler's _random for the priority-0.5 task and the
 virtual time consumed per step - deviations) are explored with mc.engine.explore within a deviation bound.
 
-PART 2 (threaded select hub, E-thr).  Fourteen representative programs of the same grammar run with the scheduler
+PART 2 (threaded select hub, E-thr).  Sixteen representative programs of the same grammar run with the scheduler
 thread + the select-hub thread (+ an environment thread that lets virtual time reach the fd readiness instants)
 under the controlled-thread explorer mc/thr.py, every schedule within a deviation bound.
 
@@ -57,6 +57,9 @@ OPS = {
   "S2":  ("sleep", 2, "yield Sleep(2)"),
   "S1":  ("sleep", 1, "yield Sleep(1)"),
   "S0":  ("sleep", 0, "yield Sleep(0)"),
+  "Sa-1": ("asleep", -1, "yield Sleep(now-1, absoluteTime=True)"),
+  "Sa0": ("asleep", 0, "yield Sleep(now, absoluteTime=True)"),
+  "Sa1": ("asleep", 1, "yield Sleep(now+1, absoluteTime=True)"),
   "SN":  ("block", "Sleep(None)", "yield Sleep(None)"),
   "F":   ("block", "False", "yield False"),
   "Se":  ("select", None, "yield Select([fd], None, None, None)"),
@@ -88,9 +91,12 @@ OPS = {
 }
 OPS_QUICK = ("0", "n1", "S2", "SN", "F", "Se", "Se1", "Av", "As", "Ar", "Ae", "W", "X", "!")
 OPS_NESTED = ("Nv", "Nc", "Nu", "Ncs", "Nus")
-OPS_EXTRA = ("S1", "S0", "n.5", "Se0", "Asr", "Ase", "TF", "TFr") + OPS_NESTED + ("Tx", "Txs", "Rx", "Rx1")      # thorough, in the programs of few yields
+OPS_EXTRA = ("S1", "S0", "n.5", "Se0", "Asr", "Ase", "TF", "TFr") + OPS_NESTED + ("Tx", "Txs", "Rx", "Rx1", "Sa-1", "Sa0", "Sa1")      # thorough, in the programs of few yields
 # quick: the nested sub-task calls and the zero-timeout Select in a small context vocabulary
 OPS_NESTED_CTX = ("0", "n1", "S2", "Se0", "SN", "W", "!", "TF") + OPS_NESTED
+# sleeps whose deadline has passed / is now when the scheduler executes them, in a small context vocabulary
+OPS_PAST = ("0", "n1", "S2", "SN", "Se1", "W") + ("S0", "Sa-1", "Sa0", "Sa1")
+TIMERS_PAST = ("rec2", "slow1", "slow2")       # recurring timers whose callback takes 0 / the interval / more than the interval
 # socket I/O ops in a small context vocabulary
 OPS_IO = ("Tx", "Txs", "Rx", "Rx1")
 OPS_IO_CTX = ("0", "n1", "SN", "Se1", "W", "!") + OPS_IO
@@ -120,6 +126,8 @@ TIMERS = {
   "rec2":   (True, 2, "Timer(1, cb, recurring=True), cb returns False on its 2nd call"),
   "pre":    (True, 0, "Timer(1, cb, recurring=True) cancelled before its first fire"),
   "selfc":  (True, 1, "Timer(1, cb, recurring=True), cb cancels the timer on its 1st call"),
+  "slow1":  (True, 2, "Timer(1, cb, recurring=True), cb takes 1 s (the interval), returns False on its 2nd call"),
+  "slow2":  (True, 2, "Timer(1, cb, recurring=True), cb takes 2 s (more than the interval), returns False on its 2nd call"),
   "nostop": (True, 2, "Timer(1, cb, recurring=True, selfStoppable=False), cb returns False, cancels on its 2nd call"),
 }
 TIMER_ORDER = ("once", "rec2", "pre", "selfc", "nostop")
@@ -145,7 +153,7 @@ class ProgSpace (object):
     def rec_shape (k, left, acc):
       if k == nent:
         shapes.append(tuple(acc)); return
-      for tv in (TIMER_ORDER if timers else ()):
+      for tv in (TIMER_ORDER if timers is True else timers or ()):
         rec_shape(k + 1, left, acc + [("T", tv)])
       for n in range(0, min(maxlen, left) + 1):
         rec_shape(k + 1, left - n, acc + [("t?", n)])
@@ -402,8 +410,9 @@ class World (object):
     r.op = op; r.opi = i; r.woken = False; r.req = None; r.sub_done = False
     label = "%s.%d" % (r.name, i)
     tc = self.now()
-    if kind == "sleep":
-      y = R.Sleep(arg)                       # the requested instant is fixed at construction
+    if kind == "sleep" or kind == "asleep":
+      # the requested instant is fixed at construction; it may have passed when the scheduler executes the operation
+      y = R.Sleep(arg) if kind == "sleep" else R.Sleep(tc + arg, absoluteTime=True)
       self.consume(label)
       r.req = tc + arg; r.state = "timed"
       return y
@@ -478,7 +487,7 @@ class World (object):
       elif got[0] == "subval":
         self.fail("subtask-result:value-delivered-to-a-task-that-called-nothing",
                   "%s received a sub-task's value %r at '%s'" % (r.name, v, OPS[op][2]))
-    if kind in ("num", "sleep"):
+    if kind in ("num", "sleep", "asleep"):
       if now < r.req:
         self.fail("timed-wake-early:%s" % ("number" if kind == "num" else "Sleep"),
                   "%s resumed from '%s' at +%s, requested +%s" % (r.name, OPS[op][2], now - T0, r.req - T0))
@@ -546,6 +555,7 @@ class World (object):
   # ---- timers ---------------------------------------------------------------------------------------
   def fired (self, r):
     self.begin("%s.cb%d" % (r.name, len(r.fires) + 1))
+    self.check_queue(r)          # the timer's task must not be queued while its callback runs
     now = self.now()
     n = len(r.fires) + 1
     r.fires.append((self.seq, now))
@@ -566,7 +576,9 @@ class World (object):
     elif n > expect:
       self.fail("timer:extra-fire:" + r.spec, "%s (%s) called back %d times" % (r.name, TIMERS[r.spec][2], n))
     rv = None
-    if r.spec == "rec2" and n >= 2: rv = False
+    if r.spec in ("slow1", "slow2"):
+      self.advance(1 if r.spec == "slow1" else 2)       # the callback itself takes that long
+    if r.spec in ("rec2", "slow1", "slow2") and n >= 2: rv = False
     elif r.spec == "selfc":
       r.self_cancel_seq = self.seq; r.obj.cancel()
     elif r.spec == "nostop":
@@ -980,6 +992,7 @@ def inline_suites (cfg):
     return [("2 entities, <=4 yields", OPS_QUICK, 2, 4, 1),
             ("2 tasks, <=3 yields, nested sub-task calls and zero-timeout Select", OPS_NESTED_CTX, 2, 3, 1, 3, False),
             ("3 tasks, <=4 yields (<=2 each), sleepers", OPS_SLEEPERS, 3, 4, 1, 2, False),
+            ("2 entities, <=3 yields, sleeps whose deadline has passed when executed, slow timer callbacks", OPS_PAST, 2, 3, 1, 3, TIMERS_PAST),
             ("2 tasks, <=3 yields, socket Send/Recv with partial writes and short reads", OPS_IO_CTX, 2, 3, 1, 3, False),
             ("2 tasks, <=4 yields (<=2 each), every priority assignment in {1,0.5}", OPS_PRIO, 2, 4, 1, 2, False, True),
             ("3 tasks, <=3 yields (<=1 each), every priority assignment in {1,0.5}", OPS_PRIO, 3, 3, 1, 1, False, True)]
@@ -991,6 +1004,7 @@ def inline_suites (cfg):
           ("3 entities, <=4 yields", OPS_QUICK, 3, 4, 0),
           ("3 tasks, <=5 yields (<=2 each), sleepers", OPS_SLEEPERS + ("Se1", "S1", "S0"), 3, 5, 1, 2, False),
           ("2 tasks, <=3 yields, socket Send/Recv with partial writes and short reads", OPS_IO_CTX, 2, 3, 2, 3, False),
+          ("2 entities, <=4 yields, sleeps whose deadline has passed when executed, slow timer callbacks", OPS_PAST, 2, 4, 2, 3, TIMERS_PAST),
           ("2 tasks, <=4 yields (<=2 each), every priority assignment in {1,0.5}", OPS_PRIO, 2, 4, 2, 2, False, True),
           ("3 tasks, <=4 yields (<=2 each), every priority assignment in {1,0.5}", OPS_PRIO, 3, 4, 1, 2, False, True)]
 
@@ -1022,6 +1036,9 @@ THR_PROGRAMS = [
   ((T("Se0", "S2"), T("S2"), ("T", "once")), {}),
   ((T("Nus", "0"), T("Ncs")), {}),
   ((T("Tx", "0"), T("Rx", "Rx1")), {1: 0.5}),
+  # deadlines that have passed when the scheduler executes the Sleep
+  ((T("Sa-1", "S2"), T("n1", "Sa0")), {}),
+  ((("T", "slow2"), T("S2")), {}),
 ]
 
 
@@ -1051,6 +1068,7 @@ def run_threaded (ctx, prog, fd_at, funcs=HANDOFF, max_points=8000, keep_log=Fal
   S = thr.Sched(ctx, trace_files=("recoco/recoco.py",), trace_funcs=funcs, pending=w.pending, max_points=max_points)
   S.keep_log = keep_log
   w.now = lambda: S.now
+  w.advance = lambda d: R.time.sleep(d)        # "this code took d seconds": the thread sleeps on the virtual clock
   w.fd_at = fd_at
   TM = thr.CThreadingModule(S)
   R.threading = TM; R.Thread = TM.Thread; R.Queue = lambda: thr.CQueue(S)
@@ -1269,9 +1287,9 @@ def run (cfg):
   rep.rule = ("PART 1 (inline hub): every ordered tuple of entities within the suites listed under `bound` - an entity is a task "
               "(generator script of <=3 yields over the vocabulary: yield 0 / 1 / Sleep(2) / Sleep(None) / False / Select([fd],timeout None|1) / "
               "Again or task_function with a sub-task that yields a value | sleeps then yields | raises | returns before yielding | is a plain "
-              "function | itself calls an inner sub-task (value, exception caught or not, before/after a sleep) / Send of 20000 or 5 bytes and Recv "
+              "function | itself calls an inner sub-task (value, exception caught or not, before/after a sleep) / Sleep(0) and absolute-time Sleeps at now-1, now, now+1 / Send of 20000 or 5 bytes and Recv "
               "(timeout None|1) on the task's fake socket / wake the blocked siblings with schedule() / cancel the timers / Exit() / raise) or a Timer (one-shot, recurring "
-              "self-stopping, cancelled before fire, cancelled by its callback, selfStoppable=False) - run on a real Scheduler.run() with a "
+              "self-stopping, cancelled before fire, cancelled by its callback, selfStoppable=False, callback taking the interval or longer) - run on a real Scheduler.run() with a "
               "virtual clock and virtual select up to the horizon; entity 0 is a Task subclass with priority 0.5, the others Task(target=) with "
               "priority 1, except in the priority suites where every assignment of {1,0.5} to the tasks is enumerated; "
               "environment: fd readiness instant {never,+0.5,+1.5} per selecting/receiving task (all explored); deviations (bounded): a run of "
